@@ -88,7 +88,7 @@ static bool equal_bv(const BinsonValue &v, const Node &n) {
 }
 
 // ---------------------------------------------------------------- one operation; everything allocated inside is gone at return
-struct Case { int op; int ovl; const Node *tree; const Bytes *ref; const Bytes *bytes; bool verify_ok; uint64_t order_seed; int max_depth; int pre; const Node *tree2; const Bytes *ref2; };
+struct Case { int op; int ovl; const Node *tree; const Bytes *ref; const Bytes *bytes; bool verify_ok; uint64_t order_seed; int max_depth; int pre; const Node *tree2; const Bytes *ref2; const Bytes *bytes2; };
 struct Status { int outcome = 0; bool correct = true; bool recovered = true; char detail[200] = {0}; uint64_t allocs = 0; };
 enum { OUT_NORMAL = 0, OUT_STDEXC = 1, OUT_BADALLOC = 2, OUT_OTHER = 3 };
 
@@ -132,6 +132,15 @@ static void body(const Case &cs, Status &st, uint64_t fail_at) {
             deser(d, cs.ovl, *cs.bytes, cs.max_depth, cs.pre);
             std::vector<uint8_t> ser = d.serialize();
             if (ser.size() != cs.bytes->size() || (ser.size() && memcmp(ser.data(), cs.bytes->data(), ser.size()) != 0)) note(st, "serialize(deserialize(bytes)) != bytes");
+        } else if (cs.op == 5) {
+            // an update is rejected (damaged bytes) and a rollback guard restores the last good document from its destructor,
+            // i.e. while the exception of the rejected update is still in flight
+            deser(d, cs.ovl, *cs.ref, cs.max_depth, 0);
+            struct Rollback { Binson &b; const Bytes &good; int ovl; ~Rollback() { try { deser(b, ovl, good, 10, 0); } catch (...) {} } };
+            bool threw = false;
+            try { Rollback guard{d, *cs.ref, cs.ovl}; deser(d, (cs.ovl + 1) % 3, *cs.bytes2, cs.max_depth, 0); }
+            catch (const std::exception &) { threw = true; }
+            if (!equal_obj(d, *cs.tree)) note(st, threw ? "a document restored from a destructor during stack unwinding is not what deserialize was given" : "rollback after an accepted update is wrong");
         } else if (cs.op == 4) {
             // the same object is used for several operations: serialize, change it through one of the put overloads, serialize again
             build(b, *cs.tree, cs.order_seed);
@@ -217,7 +226,7 @@ Plan cppwrap_generate(uint64_t base, const std::string &prop, uint64_t index, in
     p.note = tree_text(t);
     p.max_depth = 10;
     unsigned o = (unsigned)ro.below(100);
-    int op = o < 30 ? 0 : o < 42 ? 1 : o < 48 ? 3 : o < 60 ? 4 : 2;
+    int op = o < 28 ? 0 : o < 38 ? 1 : o < 44 ? 3 : o < 56 ? 4 : o < 62 ? 5 : 2;
     if (deep_objects) { op = 3; p.faults.push_back("shape:objects_beyond_wrapper_depth"); }
     p.par["op"] = op;
     p.par["ovl"] = (int64_t)ro.below(3);
@@ -234,6 +243,7 @@ Plan cppwrap_generate(uint64_t base, const std::string &prop, uint64_t index, in
         else { apply_faults(rf, p.doc, 1 + (int)rf.below(3), p.faults, nullptr); if (p.doc.size() >= 2 && rf.chance(3, 4)) { p.doc[0] = 0x40; p.doc.back() = 0x41; } }
         p.note.clear();
     }
+    if (op == 5) { p.doc2 = p.doc; apply_faults(rf, p.doc2, 1 + (int)rf.below(2), p.faults, nullptr); if (p.doc2.size() >= 2) { p.doc2[0] = 0x40; p.doc2.back() = 0x41; } p.par["f9"] = 0; }
     if (p.par["f9"]) p.faults.push_back("F9:every_allocation");
     return p;
 }
@@ -277,7 +287,7 @@ Result cppwrap_execute(const Plan &p, const ExecCtx &c) {
         encode(tree2, ref2);
         if (need_depth(tree2, false) > 10) { r.invalid_plan = true; r.detail = "changed object exceeds the wrapper's depth limit"; return r; }
     }
-    Case cs{op, ovl, have_tree ? &tree : nullptr, have_tree ? &ref : nullptr, &p.doc, verify_ok, (uint64_t)p.P("order"), 10, (int)p.P("pre"), &tree2, &ref2};
+    Case cs{op, ovl, have_tree ? &tree : nullptr, have_tree ? &ref : nullptr, &p.doc, verify_ok, (uint64_t)p.P("order"), 10, (int)p.P("pre"), &tree2, &ref2, &p.doc2};
     // ---- fault-free configuration
     long live0 = g_live.load();
     Status st;
